@@ -7,11 +7,18 @@ Tie to the code:
     theorem no longer compiles AND the kernel-computed list bad_members actual_schema is replayed
     row by row on the implementation here (keys tagkey: / none-child: / member-missing: ...), so
     the defect is reported with a concrete failing input.
-  * engine correspondence, for every class: real _to_element_tree() vs Model.Schema.serialise,
-    real create_class_from_element_tree vs Model.Schema.parse (also on rearranged / duplicated /
-    foreign-extended trees), AttributeValue documents.
-  * implementation-level oracle: cls_from_string(obj.to_string()) is structurally equal, re-serialises
-    byte-identically, known children are in c_child_order order, foreign content is still there.
+  * coq/Gen/SchemaNames.v (same translator): the intern table id -> text and the look-alike names (same local
+    name as a declared attribute / child key, other full name) the generators use; the kernel checks that the
+    table is injective, that no class has two keys with one local name, and that every generated look-alike
+    is foreign to its class (C12_names_faithful, C12_actual_lookalike_free, C12_lookalikes_generated).
+  * engine correspondence, for every class: real _to_element_tree() vs Model.SchemaDoc.serialise_doc (tails
+    compared: there must be none), real create_class_from_element_tree vs Model.SchemaDoc.parse_doc on
+    straight / pretty-printed (tails, white-space text, attribute order) / look-alike-child /
+    look-alike-attribute / rearranged / duplicated / foreign-extended documents, AttributeValue documents.
+  * implementation-level oracles: cls_from_string(obj.to_string()) is structurally equal, re-serialises
+    byte-identically, known children are in c_child_order order, foreign content is still there; every
+    parsed document is checked against the library's own c_attributes / c_children (doc_check) and the
+    parsed object must round-trip; element_to_extension_element -> ELEMENT_FROM_STRING conversion.
 """
 import copy
 import re
@@ -28,21 +35,23 @@ from schema_gen import obj_to_coq, obj_to_val
 from translate_schema import split_name
 
 CLAIM = {
-    "text": "Coq theorems (Props/C12.v) about a generic model of the SamlBase engine over table rows: for EVERY schema S and every instance tree (unbounded depth and cardinalities, hand-written nested induction) whose classes have well-formed rows, parse S (serialise S i) = norm i and serialise S (norm i) = serialise S i where norm only reorders into table order (C12_roundtrip, incl. the AttributeValue typed-text family; C12_roundtrip_schema: under wf_schema S only the object-level conditions obj_ok are asked of the instance); known children are emitted in c_child_order order (C12_sequence_order); an unknown child or attribute is kept as extension content and re-emitted (C12_foreign_preserved); and the kernel re-evaluates wf_row on the tables of ALL ~1156 classes REGENERATED from the working tree on every run: wf_schema actual_schema = true with no exception list (C12_actual_schema_wf, C12_no_bad_rows: C12_bad_rows = []), so the round trip holds for every object of every class (C12_roundtrip_actual), each class having such objects (C12_every_class_has_instances); ELEMENT_BY_TAG / ELEMENT_FROM_STRING agree. Tie: reflection translator + per-class engine correspondence (cls(), serialise, parse incl. shuffled/duplicated/foreign-extended trees) + implementation-level round-trip oracle through to_string()/from_string.",
+    "text": "Coq theorems (Props/C12.v) about a generic model of the SamlBase engine over table rows: for EVERY schema S and every instance tree (unbounded depth and cardinalities, hand-written nested induction) whose classes have well-formed rows, parse S (serialise S i) = norm i and serialise S (norm i) = serialise S i where norm only reorders into table order (C12_roundtrip, incl. the AttributeValue typed-text family; C12_roundtrip_schema: under wf_schema S only the object-level conditions obj_ok are asked of the instance); known children are emitted in c_child_order order (C12_sequence_order); an unknown child or attribute is kept as extension content and re-emitted (C12_foreign_preserved); and the kernel re-evaluates wf_row on the tables of ALL ~1156 classes REGENERATED from the working tree on every run: wf_schema actual_schema = true with no exception list (C12_actual_schema_wf, C12_no_bad_rows: C12_bad_rows = []), so the round trip holds for every object of every class (C12_roundtrip_actual), each class having such objects (C12_every_class_has_instances); ELEMENT_BY_TAG / ELEMENT_FROM_STRING agree. Look-alike names: attributes and child tags are keyed by their full name, a namespace-qualified name is never an unqualified one (C12_qualified_never_unqualified, C12_qualified_is_lookalike); in any class an attribute whose local name is that of a declared one but whose full name differs (own / xml / foreign namespace, or unqualified against a declared xml:lang) is kept with its value as extension attribute while every declared attribute is read from exactly its own name - alone or together - and an unknown child with a known child's local name in another namespace is kept whole (C12_qualified_attr_is_extension, C12_lookalike_is_extension; for today's regenerated tables and intern table C12_names_faithful, C12_actual_lookalike_free, C12_lookalike_is_foreign_actual, C12_lookalikes_generated). Documents with tails (Model/SchemaDoc.v): tails never influence parsing, the serialised document has none, unknown children keep text (also white space only) and children at every depth verbatim (C12_tails_ignored, C12_doc_roundtrip, C12_doc_foreign_preserved). Tie: reflection translator + per-class engine correspondence (cls(), serialise incl. tails, parse incl. pretty-printed / look-alike-child / look-alike-attribute / shuffled / duplicated / foreign-extended documents; every class gets look-alike attributes together with and without the declared one, own-namespace look-alike of every declared attribute, on every run) + implementation-level oracles: round trip through to_string()/from_string, document check against the library's own tables, ExtensionElement conversion.",
     "note": "Trusted: Coq kernel + vm_compute; the reflection translator and name interning; the model of the engine is hand-written and tested against the code for every class on every run. ElementTree's text layer (prefixes, escaping, xmlns handling) is not modelled: it is exercised by the byte-level oracle only. ExtensionElement capture is modelled as the identity on element trees. AttributeValue float/double conversions are not modelled. The ten rows that used to be ill-formed (xmldsig.KeyInfo.encrypted_key tag key, three placeholder child classes None, six classes with a member __init__ never creates) are repaired in the library (proposed_fix/C12-1..3); the rows as they were are kept in Model/SchemaBeforeFix.v with witness theorems C12_*_before_fix_refuted. Remaining deviation of the engine, reported as a finding: a saml.AttributeValue built with child elements only gains xsi:nil=true when parsed back (C12_av_nil_deviation).",
-    "technique": "machine-checked proof (Coq, nested induction over instance trees) + regenerated-table obligation + per-class model/implementation correspondence + round-trip oracle",
+    "technique": "machine-checked proof (Coq, nested induction over instance trees) + regenerated-table and regenerated-name-table obligations + per-class model/implementation correspondence on objects and documents + round-trip / document / conversion oracles",
 }
 TRUSTED = [
-    "harness/translate_schema.py: reflection of c_children / c_attributes / c_child_order / c_cardinality / c_value_type, members after __init__(), overridden methods, ELEMENT_BY_TAG / ELEMENT_FROM_STRING, VALIDATOR keys; interning of names to N (one dict, injective)",
-    "modelled: create_class_from_element_tree, harvest_element_tree, _convert_element_tree_to_member, _convert_element_attribute_to_member, _add_members_to_element_tree, _to_element_tree, AttributeValueBase.__init__/harvest_element_tree/set_text/set_type; ExtensionElement <-> element tree is modelled as the identity; NOT modelled (tested by the byte-level oracle only): ElementTree.tostring / defusedxml.fromstring",
+    "harness/translate_schema.py: reflection of c_children / c_attributes / c_child_order / c_cardinality / c_value_type, members after __init__(), overridden methods, ELEMENT_BY_TAG / ELEMENT_FROM_STRING, VALIDATOR keys; interning of names to N (one dict; the emitted table Gen/SchemaNames.v is proved injective by the kernel, that it holds the library's strings is the translator's)",
+    "modelled: create_class_from_element_tree, harvest_element_tree, _convert_element_tree_to_member, _convert_element_attribute_to_member, _add_members_to_element_tree, _to_element_tree, AttributeValueBase.__init__/harvest_element_tree/set_text/set_type; ExtensionElement <-> element tree is modelled as the identity on subtrees (tails dropped: Model/SchemaDoc.v); NOT modelled (tested by the byte-level oracle only): ElementTree.tostring / defusedxml.fromstring",
 ]
 ASSUMPTIONS = [
     "an attribute that __init__ presets to a non-None default (Attribute.name_format, Scope.regexp, SPCertEnc.verify_depth, KeyAuthority.verify_depth, RelatesTo.relationship_type, PolicyReference.digest_algorithm, and after repair C12-2 sslcert.{PublicKeyType_,DigSig,AsymmetricDecryption,AsymmetricKeyAgreement}.key_validation) is assumed set: an object whose such member was reset to None afterwards parses back with the default (obj_ok clause; lemma C12_default_deviation)",
     "AttributeValue objects are as the constructor/parser leave them (typed non-empty text, or empty text with xsi:nil first); an empty-text AttributeValue without xsi:nil (the constructor makes one when given child elements only, e.g. a NameID) gains xsi:nil=true on the round trip (C12_av_nil_deviation; oracle key av-nil-added:saml.AttributeValue, a known finding)",
-    "text is XML-representable (no C0 controls, no CR) in the byte-level oracle; empty text and absent text are identified there",
+    "text is XML-representable (no C0 controls, no CR) in the byte-level oracle; empty text and absent text are identified there; white-space-only text is compared verbatim",
+    "a literal xmlns:xs extension attribute (AttributeValue objects carry one) is a namespace declaration in XML text, not an attribute: generated look-alike / wrong-namespace copies of real children do not carry it, and attribute order is not permuted on elements that have it",
 ]
 RULE = ("every class x k generated instance trees (one with every declared attribute and child set, the rest random; list cardinalities 0..3, depth <= 3, "
-        "XML-special / non-ASCII text, foreign children and attributes at every level); non-trivial = instance with at least one known child or attribute "
+        "XML-special / non-ASCII / white-space text, foreign children (text AND children to depth 3) and attributes at every level, look-alike attributes (own / foreign / xml namespace, unqualified) together with and without the declared attribute, look-alike children; "
+        "documents: straight, pretty-printed with tails, look-alike child per known key, look-alike attributes first, shuffled, duplicated, foreign, wrong namespace, wrong root); non-trivial = instance with at least one known child or attribute "
         "(distinct by serialised content)")
 
 IMPORTS = "Model.Schema Model.SchemaDoc Gen.SchemaTables"
@@ -268,6 +277,46 @@ def oracle_roundtrip(ctx, T, o, bad_classes):
     return None
 
 
+def _has_av(T, av, o):
+    cid = T.cid[type(o)]
+    if cid in av:
+        return True
+    return any(_has_av(T, av, k) for _m, l in schema_gen._kids(T, o, T.rows[cid]) for k in l if k is not None)
+
+
+def oracle_ext_conversion(T, av, o):
+    """the other way the library serialises / parses an element: as ExtensionElement.  element_to_extension_element(o)
+    written out and read back through the module's ELEMENT_FROM_STRING map (extension_element_to_element) is the same
+    object; the same element under another namespace is not taken for it.  Returns (key, what, xml) or None."""
+    import importlib
+    import saml2_tophat
+    cls = type(o)
+    qn = T.qname[T.cid[cls]]
+    mod = importlib.import_module(cls.__module__)
+    efs, ebt = getattr(mod, "ELEMENT_FROM_STRING", None), getattr(mod, "ELEMENT_BY_TAG", None)
+    if not efs or not ebt or ebt.get(cls.c_tag) is not cls or cls.c_tag not in efs or getattr(mod, "NAMESPACE", None) != cls.c_namespace:
+        return None
+    if _has_av(T, av, o):
+        return None     # AttributeValue: typed text, own deviations (see ASSUMPTIONS)
+    e = saml2_tophat.element_to_extension_element(o)
+    xml = call(e.to_string)
+    o2 = call(saml2_tophat.extension_element_to_element, e, efs, mod.NAMESPACE)
+    if isinstance(o2, Exn) or isinstance(xml, Exn):
+        return "ext-conversion:raises:%s" % qn, "extension_element_to_element(element_to_extension_element(o)) raised %r" % (o2,), None
+    if o2 is None or type(o2) is not cls:
+        return "ext-conversion:type:%s" % qn, "extension_element_to_element(element_to_extension_element(o)) is %r" % (o2,), xml
+    d = first_difference(T, o, o2)
+    if d:
+        return ("ext-conversion:%s:%s.%s" % (d[3], d[0], d[1]),
+                "element_to_extension_element(o) read back through ELEMENT_FROM_STRING: %s.%s differs: %s" % d[:3], xml)
+    wrong = saml2_tophat.ExtensionElement(cls.c_tag, translate_schema.WRONG_NS, text=o.text)
+    o3 = call(saml2_tophat.extension_element_to_element, wrong, efs, mod.NAMESPACE)
+    if o3 is not None:
+        return ("ext-conversion:wrong-ns-accepted:%s" % qn,
+                "an extension element <{%s}%s> was converted by %s.ELEMENT_FROM_STRING into %r" % (translate_schema.WRONG_NS, cls.c_tag, mod.__name__, o3), None)
+    return None
+
+
 def oracle_av_children_only(ctx, T, gen, cid):
     """the property on the AttributeValue shape the generic generator does not build: the constructor
     given child elements only (attribute_converter builds NameID-valued attribute values this way).
@@ -436,6 +485,9 @@ def mutations(ctx, T, gen, cid, tree):
         k = r.choice(list(t))
         if k.tag.startswith("{"):
             k.tag = "{urn:pv:wrong-ns}" + k.tag.split("}")[1]
+            for x in k.iter():      # a literal xmlns:xs attribute (AttributeValue objects carry one) is no attribute in XML
+                for q in [q for q in x.attrib if q.startswith("xmlns")]:
+                    del x.attrib[q]
             out.append(("wrong-ns", t))
     t = copy.deepcopy(tree)
     t.tag = t.tag + "X"
@@ -448,7 +500,7 @@ def doc_variants(ctx, T, gen, cid, tree):
     order), with look-alike children, with look-alike attributes in front of the declared ones"""
     r = ctx.rng
     out = [("pretty", c12_gen.pretty(r, tree, gen))]
-    t = c12_gen.with_lookalike_child(r, T, gen, cid, tree)
+    t = c12_gen.with_lookalike_child(r, T, gen, cid, tree, cap=8 if ctx.quick else 1000)
     if t is not None:
         out.append(("lookalike-child", c12_gen.pretty(r, t, gen) if r.random() < 0.5 else t))
     t = c12_gen.with_lookalike_attrs(r, T, gen, cid, tree)
@@ -574,6 +626,12 @@ def run(ctx):
             if res:
                 n_fail += 1
                 ctx.oracle_fail(res[0], res[1], {"unit": "roundtrip", "class": qn, "xml": res[2].decode("utf8") if res[2] else None})
+            res = oracle_ext_conversion(T, gen.av, o) if (T.rows[cid]["tag"] and not isinstance(tree, Exn)) else None
+            if T.rows[cid]["tag"]:
+                ctx.count("oracle:ext-conversion" + (":fails" if res else ""))
+            if res:
+                n_fail += 1
+                ctx.oracle_fail(res[0], res[1], {"unit": "ext-conversion", "class": qn, "xml": res[2].decode("utf8") if res[2] else None})
             if not isinstance(tree, Exn) and (len(tree) or any(a in tree.attrib for a in [T.names[x[0]] for x in T.rows[cid]["attrs"]])):
                 ctx.nontriv(ET.tostring(tree))
             if cid % 150 == 0 and j == 0:
@@ -632,6 +690,28 @@ def replay(ctx, payload):
         print("reproduced" if ok else "NOT reproduced")
         return 0
     xml = inp.get("xml")
+    if xml and inp.get("class") and inp.get("unit") in ("doc", "roundtrip", "ext-conversion"):
+        # re-run the oracle that failed on the recorded document
+        cls = T.classes[T.qname.index(inp["class"])]
+        av = {r["id"] for r in T.rows if r["over"]}
+        tree = ET.fromstring(xml)       # keeps text and tails as they were
+        got = call(saml2_tophat.create_class_from_element_tree, cls, tree)
+        print("document:", xml[:1500])
+        print("parsed:", got if isinstance(got, Exn) or got is None else "object of " + type(got).__name__)
+        res = None
+        if not isinstance(got, Exn):
+            res = doc_check(T, av, cls, tree, got)
+            if res is None and got is not None:
+                r2 = oracle_roundtrip(ctx, T, got, set())
+                res = r2[:2] if r2 else None
+            if res is None and got is not None and inp.get("unit") == "ext-conversion":
+                r2 = oracle_ext_conversion(T, av, got)
+                res = r2[:2] if r2 else None
+        if res:
+            print("oracle:", res[0])
+            print("       ", res[1])
+        print("reproduced" if res else "NOT reproduced on this document (the failure needed the generated object itself: see 'what')")
+        return 0
     if xml and inp.get("class"):
         cls = T.classes[T.qname.index(inp["class"])]
         o = call(saml2_tophat.create_class_from_xml_string, cls, xml)
